@@ -248,7 +248,7 @@ def subslice_composition(ctx, rule):
     the new step depends on both steps, the new start on the outer start and step and on the sub-slice's start."""
     from ..model import Model
     from ..flow import FuncFlow, Ref, Phi, Param, strip_refs, deep_walk
-    plain = Model(root=ctx.model.root, inline=False)          # the helper itself (the main model expands it into its callers)
+    plain = ctx.model.plain()          # the helper itself (the main model expands it into its callers)
     cands = []
     for fi in plain.functions('pyplate/slicer.py'):
         if fi.cls is None or fi.cls.name != 'Slicer' or fi.parent is not None:
